@@ -403,15 +403,17 @@ func main() {
 	case "record":
 		runRecord(*trace, seed, *n, *steps, *na, *ns, *ripemd, sum)
 	case "probe":
-		// TODO-KNOWN-FINDING (C13, pending coordinator decision): StateDB.SetCode journals the code
-		// CACHED in the state object, not the account's code; see spec/state/NOTES.md "Candidate finding".
-		// The probe reproduces it and reports it as a note, never as a violation.
+		// Finding C13-F1 (fixed in /repo by 986a824788): StateDB.SetCode journalled the code CACHED in the
+		// state object, not the account's code.  The fixed scenario stays as a deterministic behaviour:
+		// Snapshot; SetCode; RevertToSnapshot on an account whose code was never read must restore the code.
 		lost := observe()
 		sum.Extra["setcode_revert_loses_uncached_code"] = lost
 		sum.Evaluations, sum.Distinct, sum.Steps = 2, 1, 2
-		sum.Rule = "probe of the raw SetCode/RevertToSnapshot pattern without a preceding code read"
+		sum.Mode = "replay"
+		sum.Rule = "Snapshot; SetCode; RevertToSnapshot on a committed contract, with and without a preceding code read"
 		if lost {
-			sum.Notes = append(sum.Notes, "candidate finding reproduced: Snapshot; SetCode(a, c2); RevertToSnapshot on an account whose code was not read before leaves the account WITHOUT code (expected: committed code)")
+			sum.Violate("StateDB diverges from StateDB.tla (finding C13-F1): Snapshot; SetCode(a1, c2); RevertToSnapshot on an account whose code was not read before leaves the account without code; the reference model restores the committed code",
+				tl.M{"replay": "spec/state/findings/C13-F1.json", "behaviour": []string{"init cancun a1={nonce 1, bal 1, code 1, st [1]}", "BeginTx", "Snapshot", "SetCode(a1, 2) without GetCode", "Revert(1)"}})
 		}
 	default:
 		tl.Fatal("bad mode")
